@@ -104,7 +104,7 @@ var literalSweep = map[string][]sweepVal{
 	"@string":             {{"plain text", true}, {"", true}, {"ünïcode", true}},
 	"@anyuri":             {{"https://example.com/a", true}, {"http://other.example:8080/x/y?q=1#f", true}, {"urn:isbn:0451450523", true}, {"mailto:a@example.com", true}, {"https://example.com/page?page=true&min_id=0", true}, {"https://example.com/p?z=1&a=2#frag", true}},
 	"@bcp47":              {{"en", true}, {"en-US", true}},
-	"@rfc2045":            {{"text/html", true}},
+	"@rfc2045":            {{"text/html", true}, {"text/markdown;variant=GFM", true}, {"audio/ogg; codecs=\"opus\"", true}, {"video/WebM", true}, {"text/plain; Charset=UTF-8", true}},
 	"@rfc5988":            {{"me", true}},
 }
 
@@ -476,6 +476,40 @@ func runC01() {
 			}
 		}
 	}
+	// sweep 1b: contexts written with prefix definitions - ["<ActivityStreams>", {"<prefix>": "<vocabulary IRI>", "<name>":
+	// "<prefix>:<name>"}] - and plainly named members of that vocabulary: every member is decoded or kept, none vanishes
+	asURI := "https://www.w3.org/ns/activitystreams"
+	nPrefixed := 0
+	for pi := range t.Props {
+		p := &t.Props[pi]
+		if p.VocabURI == asURI || p.VocabURI == "" || p.Name == "id" || p.Name == "type" || nPrefixed >= 24 {
+			continue
+		}
+		ty := holder(p.Name)
+		if ty == nil {
+			continue
+		}
+		var val interface{}
+		for _, m := range p.Members {
+			if sv, ok := literalSweep[normKind(m.Kind)]; ok && len(sv) > 0 {
+				val = sv[0].v
+				break
+			}
+			if m.Kind == "IRI" {
+				val = "https://example.com/prefixed/" + fmt.Sprint(nPrefixed)
+			}
+		}
+		if val == nil {
+			continue
+		}
+		prefix := "v" + fmt.Sprint(nPrefixed%3)
+		for _, vocab := range []string{p.VocabURI, p.VocabURI + "#"} {
+			ctx := []interface{}{asURI, map[string]interface{}{prefix: vocab, p.Name: prefix + ":" + p.Name}}
+			process(ty.Name, false, map[string]interface{}{"@context": ctx, "type": ty.Name, "id": "https://example.com/prefixed/doc/" + fmt.Sprint(nPrefixed), p.Name: val, "name": "plainly named"})
+		}
+		nPrefixed++
+	}
+	s.Dist["prefix_definition_contexts"] = nPrefixed
 	// sweep 2: a property of one vocabulary on a type of another, holding an IRI / an embedded value of each type kind of its
 	// range: the rebuilt @context must name exactly the vocabularies used
 	for pi := range t.Props {
